@@ -106,6 +106,13 @@ class Tables:
                 return ("and" if op == "&&" else "or", a, b)
             a = self.ev(e["l"], env)
             b = self.ev(e["r"], env)
+            if op in ("==", "!="):
+                # `left.ch == '-'` is `left.is('-')`
+                for x, y in ((a, b), (b, a)):
+                    if isinstance(x, tuple) and x and x[0] == "nbch" and isinstance(y, tuple) and y and y[0] == "char":
+                        at = ("atom", x[1], "is", (y,))
+                        return at if op == "==" else ("not", at)
+                raise TableError("comparison %s of %r and %r (line %d)" % (op, a, b, e["pos"][0]))
             try:
                 if op == "+":
                     return a + b
@@ -118,6 +125,37 @@ class Tables:
             except TypeError:
                 raise TableError("arithmetic on non-numbers (line %d)" % e["pos"][0])
             raise TableError("operator " + op)
+        if k == "field":
+            base = self.ev(e["base"], env)
+            if isinstance(base, tuple) and base and base[0] == "nb" and e.get("member") == "ch":
+                return ("nbch", base[1])
+            if isinstance(base, tuple) and base and base[0] == "tuple" and str(e.get("member", "")).isdigit():
+                return base[1][int(e["member"])]
+            raise TableError("field .%s of %r (line %d)" % (e.get("member"), base, e["pos"][0]))
+        if k == "macro" and e["name"].split("::")[-1] == "matches" and "matches" in e:
+            mm = e["matches"]
+            subj = self.ev(mm["expr"], env)
+            if not (isinstance(subj, tuple) and subj and subj[0] == "nbch"):
+                raise TableError("matches! on something else than a neighbour's character (line %d)" % e["pos"][0])
+            def alts(p_):
+                if p_.get("pk") == "or":
+                    out = []
+                    for c_ in p_.get("cases", []):
+                        out.extend(alts(c_))
+                    return out
+                if p_.get("pk") == "lit" and p_["lit"].get("ty") == "char":
+                    return [p_["lit"]["v"]]
+                raise TableError("matches! pattern %s (line %d)" % (p_.get("pk"), e["pos"][0]))
+            chars = alts(mm["pat"])
+            c = None
+            for ch_ in chars:
+                a_ = ("atom", subj[1], "is", (("char", ch_),))
+                c = a_ if c is None else ("or", c, a_)
+            if c is None:
+                c = ("false",)
+            if mm.get("guard"):
+                c = ("and", c, self.cond(mm["guard"], env))
+            return c
         if k == "cast":
             return self.ev(e["e"], env)
         if k == "ref":
@@ -137,6 +175,11 @@ class Tables:
             name = f["path"]
             short = name.split("::")[-1]
             args = [self.ev(a, env) for a in e["args"]]
+            if name in env and isinstance(env[name], tuple) and env[name] and env[name][0] == "closure":
+                # a local factory / helper closure (`let round_letter = move |radius| -> Behavior { .. }`)
+                return self.apply_closure(env[name], args, e)
+            if name in ("Vec::new", "Vec::with_capacity", "std::vec::Vec::new", "std::vec::Vec::with_capacity", "vec::Vec::new", "vec::Vec::with_capacity"):
+                return ("list", [])
             if short in FRAG_FNS and "::" not in name.replace("fragment::", ""):
                 return self.mk_frag(short, args, e)
             if name in ("Arc::new", "std::sync::Arc::new", "sync::Arc::new"):
@@ -164,7 +207,7 @@ class Tables:
             except Unfoldable as ex:
                 raise TableError("cannot fold %s: %s" % (fn, ex))
         if k == "closure":
-            return ("closure", e)
+            return ("closure", e, dict(env))
         if k == "block":
             env2 = dict(env)
             val = None
@@ -176,10 +219,38 @@ class Tables:
                     env2[n] = self.ev(st["init"], env2)
                 elif st["k"] == "expr_stmt" and not st["semi"]:
                     val = self.ev(st["expr"], env2)
+                elif st["k"] == "expr_stmt" and st["expr"].get("k") == "method" and st["expr"]["method"] in ("push", "extend") and \
+                        st["expr"]["recv"].get("k") == "path" and isinstance(env2.get(st["expr"]["recv"]["path"]), tuple) and \
+                        env2[st["expr"]["recv"]["path"]][0] == "list" and len(st["expr"]["args"]) == 1:
+                    # `rules.push((cond, frags));` on a list built in this block (straight-line code only)
+                    tgt = st["expr"]["recv"]["path"]
+                    item = self.ev(st["expr"]["args"][0], env2)
+                    cur = list(env2[tgt][1])
+                    if st["expr"]["method"] == "push":
+                        cur.append(item)
+                    elif isinstance(item, tuple) and item and item[0] == "list":
+                        cur.extend(item[1])
+                    else:
+                        raise TableError("extend with a non-list (line %d)" % st["pos"][0])
+                    env2[tgt] = ("list", cur)
                 else:
                     raise TableError("unsupported statement %s (line %d)" % (st["k"], st["pos"][0]))
             return val
         raise TableError("unsupported syntax %s (line %s)" % (k, e.get("pos", ["?"])[0]))
+
+    def apply_closure(self, cl, args, e):
+        _, ce, cenv = cl
+        names = []
+        for p_ in ce["params"]:
+            n_ = p_.get("name") or (p_.get("inner") or {}).get("name")
+            if n_ is None:
+                raise TableError("closure parameter pattern (line %d)" % ce["pos"][0])
+            names.append(n_)
+        if len(names) != len(args):
+            raise TableError("closure called with %d arguments, takes %d (line %d)" % (len(args), len(names), e["pos"][0]))
+        env2 = dict(cenv)
+        env2.update(zip(names, args))
+        return self.ev(ce["body"], env2)
 
     def cond(self, e, env):
         v = self.ev(e, env)
@@ -272,16 +343,12 @@ class Tables:
                 s, frs = t[1]
                 signature.append((s[1], list(frs[1])))
             # Arc::new(move |8 neighbours| { vec![(cond, vec![..]), ..] })
-            cl = beh
-            if cl.get("k") == "call" and cl["args"]:
-                cl = cl["args"][0]
-            if cl.get("k") != "closure" or len(cl["params"]) != 8:
+            # evaluated as a value: the closure itself, a shared closure bound by a `let` (`x.clone()`), or the result of a
+            # local factory (`round_letter(unit2)`)
+            clv = self.ev(beh, env)
+            if not (isinstance(clv, tuple) and clv and clv[0] == "closure" and len(clv[1]["params"]) == 8):
                 raise TableError("behaviour of %r is not an 8-parameter closure (line %d)" % (ch, ent["pos"][0]))
-            names = [p.get("name") for p in cl["params"]]
-            env2 = dict(env)
-            for n, d in zip(names, DIRS):
-                env2[n] = ("nb", d)
-            bv = self.ev(cl["body"], env2)
+            bv = self.apply_closure(clv, [("nb", d) for d in DIRS], beh)
             if not (isinstance(bv, tuple) and bv[0] == "list"):
                 raise TableError("behaviour of %r does not evaluate to a vec![..]" % ch)
             behaviour = []
